@@ -10,9 +10,16 @@
       - [read] what a READ of the target reports afterwards: Selection.UpsertInto a capturing
                reference store, i.e. through the target's own Choose.
     Lists created at run time by nodeutil.Node are Go maps (no insertion order): rows are compared
-    as multisets, recursively. *)
+    as multisets, recursively.
+
+    [CRefl]: the same two observations for a step on the Reflect map node (nodeutil.ReflectChild over
+    Go maps), plus a third one: what the node's Choose itself ANSWERS for every choice of the root
+    container (nested ones included), as the index of the answered case among the cases of the
+    choice asked about, or [AForeign] when the answer is no case of that choice.  The hierarchy of
+    the root's definitions ([defs], harness/props/c09r.go hierTerm) is an input; the model of the
+    answer is the walk of Tree/ReflectChoose.v on it. *)
 From Coq Require Import ZArith List Bool Strings.Byte.
-From YV Require Import Base.Verdict Val.Model Tree.Schema Tree.Editor Tree.Merge Tree.ChoiceInv.
+From YV Require Import Base.Verdict Val.Model Tree.Schema Tree.Editor Tree.Merge Tree.ChoiceInv Tree.ReflectChoose.
 From YV Require Check.C03Check.
 Import ListNotations.
 
@@ -21,9 +28,17 @@ Inductive nobs :=
 | NObsErr (e : eerr)
 | NObsPanic.
 
+Inductive ans := ANone | ACase (k : nat) | AForeign.
+
+Inductive robs :=
+| RObsOk (raw read : content) (answers : list (nat * ans))
+| RObsErr (e : eerr)
+| RObsPanic.
+
 Inductive case :=
 | CHist (c : C03Check.case)
-| CNode (kids : list snode) (src tgt : content) (o : nobs).
+| CNode (kids : list snode) (src tgt : content) (o : nobs)
+| CRefl (defs : list cdef) (kids : list snode) (src tgt : content) (o : robs).
 
 (** equality up to the order of list rows *)
 Fixpoint dnode_eqb_u (a b : dnode) {struct a} : bool :=
@@ -131,8 +146,67 @@ Definition classify_node (kids : list snode) (src tgt : content) (o : nobs) : ve
     end in
   classify_gen corr spec None.
 
+(** * The Reflect map node: what Choose answers *)
+
+Definition ans_eqb (a b : ans) : bool :=
+  match a, b with
+  | ANone, ANone | AForeign, AForeign => true
+  | ACase x, ACase y => Nat.eqb x y
+  | _, _ => false
+  end.
+
+(** the model's answer for choice [id] on a target holding [raw]: the walk over the hierarchy *)
+Definition model_answer (defs : list cdef) (kids : list snode) (raw : content) (id : nat) : option ans :=
+  match find_choice_defs id (hzip_defs kids raw defs) with
+  | Some cases => Some (match rchoose cases with Some k => ACase k | None => ANone end)
+  | None => None
+  end.
+
+(** spec of an answer, on the flat kids and independent of the walk: the answered case is a case of
+    the choice asked about and some node of it (at any depth: every flat kid below it carries the
+    pair on its guard) is held; "none" only when no node below the choice is held.  On a target that
+    satisfies the invariant this leaves one answer. *)
+Definition guard_has (c k : nat) (g : guard) : bool :=
+  existsb (fun p => Nat.eqb (fst p) c && Nat.eqb (snd p) k) g.
+Definition guard_under (c : nat) (g : guard) : bool := existsb (fun p => Nat.eqb (fst p) c) g.
+Definition ans_ok (kids : list snode) (raw : content) (ia : nat * ans) : bool :=
+  let (id, a) := ia in
+  match a with
+  | ACase k => existsb (fun sd => guard_has id k (sguard (fst sd)) && present (snd sd)) (combine kids raw)
+  | ANone => negb (existsb (fun sd => guard_under id (sguard (fst sd)) && present (snd sd)) (combine kids raw))
+  | AForeign => false
+  end.
+
+Definition classify_refl (defs : list cdef) (kids : list snode) (src tgt : content) (o : robs) : verdict :=
+  let as_node := match o with
+                 | RObsOk raw rd _ => NObsOk raw rd
+                 | RObsErr e => NObsErr e
+                 | RObsPanic => NObsPanic
+                 end in
+  let corr_answers :=
+    match o with
+    | RObsOk raw _ answers =>
+        forallb (fun ia : nat * ans =>
+                   match model_answer defs kids raw (fst ia) with
+                   | Some a => ans_eqb a (snd ia)
+                   | None => false
+                   end) answers
+    | _ => true
+    end in
+  let spec_answers :=
+    match o with
+    | RObsOk raw _ answers => forallb (ans_ok kids raw) answers
+    | _ => true
+    end in
+  match classify_node kids src tgt as_node with
+  | Agree => classify_gen (dump_ok defs kids && corr_answers) spec_answers None
+  | Diverge => classify_gen false spec_answers None
+  | v => v
+  end.
+
 Definition classify (c : case) : verdict :=
   match c with
   | CHist h => C03Check.classify h
   | CNode kids src tgt o => classify_node kids src tgt o
+  | CRefl defs kids src tgt o => classify_refl defs kids src tgt o
   end.
